@@ -214,6 +214,8 @@ class ExprMixin(object):
                 if name in o.cls.class_assigns:
                     cm, cnode = o.cls.class_assigns[name]
                     return self.class_attr_value(cm, cnode)
+                if name == "__dict__" and hasattr(o.cls, "dict_of"):
+                    return o.cls.dict_of(self, st, o)
                 if name == "__dict__":
                     self.event("dunder_dict", node, module, st)
                     return Opaque("__dict__")
@@ -365,6 +367,21 @@ class ExprMixin(object):
                         except IndexError:
                             self.hazard(st, "IndexError", node, module, TRUE, "list index out of range")
                             raise Dead()
+                    if getattr(o, "prefix_closed", False) and idx.v >= 0:
+                        # a sequence of statically unknown length whose element k exists exactly
+                        # under its guard (each guard implies the previous one)
+                        if idx.v >= len(o.items):
+                            self.hazard(st, "IndexError", node, module, TRUE, "index out of range")
+                            raise Dead()
+                        g, v_ = o.items[idx.v]
+                        d = self.decide(st, g)
+                        if d is False:
+                            self.hazard(st, "IndexError", node, module, TRUE, "index out of range")
+                            raise Dead()
+                        if d is None:
+                            self.hazard(st, "IndexError", node, module, mk_not(g), "index %d is out of range for some inputs" % idx.v)
+                            self.assume(st, g)
+                        return v_
                     if idx.v in (0, -1) and o.items:
                         # first (last) element that is present; IndexError when none is
                         seq = list(o.items) if idx.v == 0 else list(reversed(o.items))
@@ -671,7 +688,14 @@ class ExprMixin(object):
         if b is None:
             self.assume(st, c)
             return a
-        return self.mk_ite(st, c, a, b)
+        try:
+            return self.mk_ite(st, c, a, b)
+        except AnalysisError as e:
+            if getattr(self, "split_unjoinable", False) and e.rule == "E5.join":
+                from .interp import SplitOn
+
+                raise SplitOn(c)
+            raise
 
     def e_Compare(self, st, env, node, module):
         left = self.eval(st, env, node.left)
@@ -712,6 +736,16 @@ class ExprMixin(object):
         fo = st.folder()
         if is_discrete(a) and is_discrete(b) and fo.can_fold([a, b]):
             numeric = is_numeric(a) and is_numeric(b)
+            plain_nums = numeric and getattr(self, "fold_numeric_compare", False) and not any(
+                v_ is NAN for t_ in (a, b) for v_ in (t_.table.values() if isinstance(t_, Fin) else [t_.v])
+            )
+            if plain_nums:
+                # a table of plain numbers against a number: decided row by row on exact values
+                def cmpq(x, y):
+                    qx, qy = qof(x), qof(y)
+                    return {"==": qx == qy, "!=": qx != qy, "<": qx < qy, "<=": qx <= qy, ">": qx > qy, ">=": qx >= qy}[sym]
+
+                return fo.fold(cmpq, [a, b])
             if not numeric or (const_int_like(a) and const_int_like(b)):
                 def cmpf(x, y):
                     if sym == "==":
